@@ -185,7 +185,8 @@ def run_family(ctx, prop):
     for (i, l, clause) in fails:
         ev = traces[i]["ev"][0]
         mine = clause.startswith(prefix) or clause.startswith("stuck") or \
-            (clause.endswith("_raised") and ((prop == "C01" and ev["k"] in ("P", "PAIR", "ZONE", "CM", "TM", "TMA")) or (prop == "C02" and ev["k"] in ("IRT", "STA"))))
+            (clause.endswith("_raised") and ((prop == "C01" and ev["k"] in ("P", "PAIR", "ZONE", "CM", "TM", "TMA")) or (prop == "C02" and ev["k"] in ("IRT", "STA"))
+                                                or (prop == "C10" and ev["k"] in ("P", "PAIR", "IRT", "CM", "TM", "TMA"))))
         if not mine:
             other[clause] = other.get(clause, 0) + 1
             continue
